@@ -149,9 +149,13 @@ def run(rep, tier, seed):
     from algopy import UTPM
     import algopy.exact_interpolation as ei
     q = tier == "quick"
-    res = tlc_ok(run_tlc("MC_FwdDrivers", CFG % ((3, 3, 2, "PS") if q else (4, 4, 3, "PS")), workers=16, timeout=2400), "MC_FwdDrivers")
-    rep.add_tlc(res, "MC_FwdDrivers")
-    recs = res.records
+    recs = []
+    # (N <= 4 with degree <= 3 and tensors of order <= 2; N <= 3 with degree <= 4 and tensors of order <= 3: the full product
+    #  N <= 4, degree <= 4, order <= 3 does not finish within 40 minutes)
+    for bound in ([(3, 3, 2, "PS")] if q else [(4, 3, 2, "PS"), (3, 4, 3, "PS")]):
+        res = tlc_ok(run_tlc("MC_FwdDrivers", CFG % bound, workers=16, timeout=2400), "MC_FwdDrivers %s" % (bound,))
+        rep.add_tlc(res, "MC_FwdDrivers_N%d_deg%d_order%d" % bound[:3])
+        recs += res.records
     if not recs:
         raise Machinery("no instances")
     by = {}
